@@ -75,29 +75,45 @@ class Net:
     raise RuntimeError("control channel did not quiesce")
 
 
-def h_frames(ctx, nframes, buffers, sweep, pad=0):
+def h_frames(ctx, nframes, buffers, sweep, pad=0, script=None):
   net = Net(ctx, buffers)
   of = net.of
   ctx.check('handshake completed', net.con.connect_time is not None and net.nexus.getConnection(7) is net.con)
   hist = []      # reference: (source mac, port) in arrival order
+  meta = {}; keep = []   # reference flow clocks, keyed by entry identity (keep pins the objects so ids are not reused)
   swallowed = False
   for i in range(nframes):
-    src = ctx.bytes('src%d' % i, 6); dst = ctx.bytes('dst%d' % i, 6)
-    ctx.assume((src[0] & 1) == 0)                         # a source address is unicast
+    if script is not None:
+      # longer histories over three fixed hosts: who talks to whom is scripted, ingress ports and time gaps stay symbolic
+      HOSTS = {'A': b'\x02\x00\x00\x00\x00\x0a', 'B': b'\x02\x00\x00\x00\x00\x0b', 'C': b'\x02\x00\x00\x00\x00\x0c', '*': b'\xff' * 6}
+      src = env.tobytes(ctx, list(HOSTS[script[i][0]])); dst = env.tobytes(ctx, list(HOSTS[script[i][1]]))
+    else:
+      src = ctx.bytes('src%d' % i, 6); dst = ctx.bytes('dst%d' % i, 6)
+      ctx.assume((src[0] & 1) == 0)                         # a source address is unicast
     inport = ctx.int('inport%d' % i, 1, NPORTS)
-    lldp = ctx.bool('lldp%d' % i)
+    lldp = ctx.bool('lldp%d' % i) if script is None else False
     et = [0x88, 0xcc] if lldp else [0x08, 0x01]
     raw = env.tobytes(ctx, list(dst) + list(src) + et + [i, 0xaa, 0xbb, 0xcc] + [(7 * k + i) & 0xff for k in range(pad)])
     if sweep:
       net.clock.now = net.clock.now + ctx.int('gap%d' % i, 0, 45)
       net.sw.table.remove_expired_entries()
       net.pump()
+    if sweep:
+      # an entry may still be installed after the sweep only if neither of its timeouts has elapsed (at the exact instant either is accepted)
+      for e in net.sw.table.entries:
+        m_ = meta.get(id(e))
+        if m_ is None: continue
+        ctx.check('frame %d: every installed flow is within its idle and hard timeouts after the expiry sweep' % i,
+                  ctx.And(ctx.Or(e.idle_timeout == 0, net.clock.now - m_[1] <= e.idle_timeout), ctx.Or(e.hard_timeout == 0, net.clock.now - m_[0] <= e.hard_timeout)))
     # is an older cached flow for this traffic still installed?
     pm = of.ofp_match.from_packet(net.pkt.ethernet(raw), int(inport), spec_frags=True)
     cached = [e for e in net.sw.table.entries if e.match.matches_with_wildcards(pm, consider_other_wildcards=False)]
     del net.outs[:]
     net.sw.rx_packet(net.pkt.ethernet(raw), int(inport))
     net.pump()
+    for e in cached[:1]: meta[id(e)] = (meta.get(id(e), (net.clock.now, 0))[0], net.clock.now)     # traffic refreshes the idle clock of the entry it hit
+    for e in net.sw.table.entries:
+      if id(e) not in meta: meta[id(e)] = (net.clock.now, net.clock.now); keep.append(e)            # (created, last touched) of newly installed flows
     got = list(net.outs)
     ports = [p for p, _ in got]
     tag = ('[after-drop-flow] ' if swallowed else '') + 'frame %d: ' % i
@@ -135,7 +151,9 @@ def obligations(tier):
   cases = [dict(nframes=1, buffers=0, sweep=False), dict(nframes=2, buffers=0, sweep=False), dict(nframes=2, buffers=2, sweep=False),
            dict(nframes=2, buffers=2, sweep=True), dict(nframes=2, buffers=1, sweep=True),
            dict(nframes=2, buffers=0, sweep=False, pad=150), dict(nframes=2, buffers=1, sweep=False, pad=150)]   # frames longer than miss_send_len
-  if thorough: cases += [dict(nframes=3, buffers=2, sweep=False), dict(nframes=3, buffers=0, sweep=False), dict(nframes=3, buffers=2, sweep=True)]
+  # A announces itself, B and C talk to A (two flows installed back to back), A moves, silence, B talks to A again
+  cases.append(dict(nframes=5, buffers=2, sweep=True, script=['A*', 'BA', 'CA', 'A*', 'BA']))
+  if thorough: cases += [dict(nframes=5, buffers=0, sweep=True, script=['A*', 'BA', 'AB', 'B*', 'AB']), dict(nframes=3, buffers=2, sweep=False), dict(nframes=3, buffers=0, sweep=False), dict(nframes=3, buffers=2, sweep=True)]
   BOUNDS[tier] = dict(switches=1, ports=NPORTS, frames=[c['nframes'] for c in cases], macs="48-bit symbolic source/destination per frame (all aliasing patterns)",
                       ingress="symbolic port", gaps="0..45 s symbolic with an expiry sweep before each frame (sweep cases)", buffering=sorted({c['buffers'] for c in cases}), frame_lengths=[18, 168], miss_send_len=128)
   return [Obligation('O1_frames', h_frames, cases, witnesses=('done', 'flood', 'unicast-known', 'filtered', 'cached-flow'), max_decisions=40000,
